@@ -11,6 +11,18 @@ NOTE = ("Trusted base: the Go type checker (go/types), go/packages loading of /r
 
 # id -> (technique, level text, design ref)
 CLAIMS = {
+ "C13": ("checked-vs-saturating guard-list agreement (AST) over sema's declared SaturatingArithmeticSupport pairs + panic-kind signatures + sibling unification + type-switch table of the fixed-point saturation helpers",
+         "Structural necessary conditions: each declared saturating operation tests exactly the checked operation's overflow predicates and clamps to the type's own Max/Min, raises no overflow kind, is implemented directly, and siblings agree.",
+         "DESIGN.md §4 C13"),
+ "C14": ("panic-kind signatures + negative-shift guard dominance (AST) + sibling unification with width-literal suspicion",
+         "Structural necessary conditions: signed shifts fail on negative counts behind a dominating test, unsigned shifts raise nothing, and the bitwise methods of sibling widths use their own width in every width-dependent position.",
+         "DESIGN.md §4 C14"),
+ "C15": ("type-switch table extraction of handleFixedpointError + SSA error-flow of every fixed-point library call + constant/parameter check of rounding arguments + zero-divisor dominance",
+         "Structural necessary conditions: library error kinds map to the right Cadence errors, no library error is dropped, truncating rounding is passed to Mul/Div and the caller's rounding to multiplyDivide, Fix64/UFix64 divisions are zero-guarded.",
+         "DESIGN.md §4 C15"),
+ "C16": ("table-row coherence of ConverterDeclarations (resolved identifiers, bounds, native types) + sibling unification of ConvertT + panic-kind signatures",
+         "Structural necessary conditions: each converter row names a single numeric type with its own bounds, a row exists per number type, sibling conversions agree, integer conversions raise {Overflow,Underflow} and Word conversions none.",
+         "DESIGN.md §4 C16"),
  "C01": ("panic-operand classification over all panic sites (go/ssa) + pinned error-class table + deferred-Recover dominance + recover() arm summaries vs reviewed table",
          "Structural necessary conditions: every panic throws a classified value, every error type keeps its UserError/InternalError marker, runtime entry points defer Recover before any other call, and every recover() site absorbs/re-panics exactly the reviewed dynamic types.",
          "DESIGN.md §4 C01"),
